@@ -36,17 +36,22 @@ def record_session(binary, name, steps, seed=1, gates=False, timeout=240, keys=N
 
 
 def recover_points(binary, sess, points, tag="img"):
-    """materialize each point, run the real recovery, attach results; images are removed afterwards"""
+    """materialize each distinct image, run the real recovery, attach results (points with identical content share the result);
+    images are removed afterwards"""
     root = sess["root"]
     imgroot = os.path.join(sess["work"], tag)
-    dirs = []
+    dirs = {}
+    order = []
     for i, p in enumerate(points):
-        d = os.path.join(imgroot, "p%05d" % i)
-        crash.materialize(p.snap, root, d)
-        dirs.append(d)
-    res = crash.recover_images(binary, dirs, [k.hex() for k in sess["keys"]], NKEYS)
+        key = p.digest if p.digest != "perm" else "perm-%d" % i
+        if key not in dirs:
+            d = os.path.join(imgroot, "p%05d" % i)
+            crash.materialize(p.snap, root, d)
+            dirs[key] = d
+        order.append(key)
+    res = crash.recover_images(binary, list(dirs.values()), [k.hex() for k in sess["keys"]], NKEYS)
     shutil.rmtree(imgroot, ignore_errors=True)
-    return [res[d] for d in dirs]
+    return [res[dirs[k]] for k in order]
 
 
 def judge_lines(case, mode, events, points, results, kind="crash", refs=None):
